@@ -162,23 +162,28 @@ func H_C17_sort_panics() {
 
 // Reverse: element i moves to n-1-i (identity of containers, value of scalars), in place.
 func H_C17_reverse() {
-	maxN := 5
+	maxN := 4
 	if verifTier() > 0 {
-		maxN = 7
+		maxN = 6
 	}
 	verifBound("LISTN", maxN)
 	n := nondetIntRange(0, maxN)
 	l := hListWithSpare(n, nondetIntRange(0, 1))
 	inner := NewList(1)
+	twin := NewList(1) // same content as inner, another container
 	obj := NewObject("a", 1)
 	for i := 0; i < n; i++ {
-		switch nondetIntRange(0, 3) {
+		switch nondetIntRange(0, 5) {
 		case 0:
 			l.Replace(i, nondetInt())
 		case 1:
 			l.Replace(i, hBytesStr(1))
 		case 2:
 			l.Replace(i, inner)
+		case 3:
+			l.Replace(i, twin)
+		case 4:
+			l.Replace(i, hFiniteFloat()) // values that compare equal with different bits (+0 / -0) are distinct elements
 		default:
 			l.Replace(i, obj)
 		}
